@@ -18,6 +18,9 @@ noncomputable instance instTranscReal : Transc ℝ where
   sqrt := Real.sqrt
   pi := Real.pi
 
+noncomputable instance instHasPiReal : HasPi ℝ := ⟨Real.pi⟩
+@[simp] theorem haspi_real : (HasPi.pi : ℝ) = Real.pi := rfl
+
 @[simp] theorem transc_exp_real (x : ℝ) : Transc.exp x = Real.exp x := rfl
 @[simp] theorem transc_log_real (x : ℝ) : Transc.log x = Real.log x := rfl
 @[simp] theorem transc_log1p_real (x : ℝ) : Transc.log1p x = Real.log (1 + x) := rfl
